@@ -9,6 +9,7 @@ that carries the operation out:
    10 m h limit   Store::visit with a callback made in m     11 m h n      Store::fill from an iterator made in m     12 m h   check_impl Store
    13 m n         vector                                     14 m h x      push (grows through the stored reserve function)
    15 m h         sum through &CVec                          16 m h        sum through a CSliceRef handed to m          17 m h   destroy
+   19 m h i x     insert      20 m h   pop      21 m h i   remove      22 m h n   reserve      23 m h   clone the vector (the copy belongs to m)
 After the script everything left is destroyed, alternating the destroying module.
 harness/xmod is ONE source compiled twice: into the host binary (module 0) and as a cdylib (module 1) loaded with dlopen — by another compiler
 version / optimisation level / repr(Rust) layout seed; each artifact has its own std, its own tagging global allocator (a block freed by the module
@@ -140,7 +141,7 @@ def gen_cases(rng, tier):
         for _ in range(4 + r.below(37)):
             m = r.below(2)
             live = lambda k: [j for j, x in enumerate(kinds) if x == k]
-            choice = r.below(20)
+            choice = r.below(21) if r.chance(1, 2) else 17 + r.below(2) if r.chance(1, 6) else r.below(21)
             pick = lambda k: (r.choice(live(k)) if live(k) and not (wild and r.chance(1, 4)) else r.below(len(kinds) + 2) - 1)
             if choice == 0 or not live("c"):
                 ops.append([0, m]); kinds.append("c"); home[len(kinds) - 1] = m
@@ -181,7 +182,21 @@ def gen_cases(rng, tier):
             elif choice == 16:
                 ops.append([13, m, r.below(6)]); kinds.append("v"); home[len(kinds) - 1] = m
             elif choice == 17:
-                ops.append([14, m, pick("v"), r.below(1000)])
+                k = r.below(6)
+                if k == 0:
+                    ops.append([14, m, pick("v"), r.below(1000)])
+                elif k == 1:
+                    ops.append([19, m, pick("v"), r.below(5), r.below(1000)])
+                elif k == 2:
+                    ops.append([20, m, pick("v")])
+                elif k == 3:
+                    ops.append([21, m, pick("v"), r.below(5)])
+                elif k == 4:
+                    ops.append([22, m, pick("v"), r.below(40)])
+                else:
+                    h = pick("v"); ops.append([23, m, h])
+                    if 0 <= h < len(kinds) and kinds[h] == "v":
+                        kinds.append("v"); home[len(kinds) - 1] = m
             elif choice == 18:
                 ops.append([r.choice([15, 16]), m, pick("v")])
             else:
